@@ -25,6 +25,7 @@ CONFIG = {
     "timeout_quick": 600,
     "timeout_thorough": 3000,
     "assumptions": [
+        "ORACLE-ONLY CLAUSES (no theorem): byte identity of every reachable node (oracle fetches and compares; generated blobs <= 64 B, manifests < ~2 KB); the link kinds config/layers/blobs/manifests/subject (g_succ is a parameter of the theorems: the generator's edge list is compared with content.Successors on every generated graph, signature successors-differ, and every probe must be a dispatched successor); the actual reference STRING (TagB/TagE/PushReference events carry no reference: the model proves 'the effective reference is set to the root', the oracle resolves the real string, checks that a pre-existing reference is moved and that the source reference is not tagged as well when another destination reference was given); the link resolve -> MapRoot/platform -> copyGraph root is the harness's ground truth (expectedRoot), the model takes the mapped root as the configuration's root; plat_match is compared with platform.Match on architecture/OS matches and on variant/feature wants that no entry satisfies (generated index entries carry architecture and OS only)",
         "optional callbacks: which of PreCopy/PostCopy/OnCopySkipped/OnMounted/MountFrom (and FindSuccessors, MapRoot) are nil is chosen per run, including all nil = default options; a recorded trace then has no events for nil callbacks and is elaborated by Model/CopyOpt.step_opt (the invocation points of nil callbacks are inserted, an event of a nil callback is rejected); the *_any_callbacks theorems hold for every such choice",
         "ExtendedCopyGraph / ExtendedCopy: the roots above the node (generator's predecessor relation; findRoots itself is C03's) are the model's c_root :: c_xroots, dispatched together and sharing tracker, proxy and limiter; the final Tag of ExtendedCopy is checked by the oracle only",
         "content.Successors (encoding/json decoding of the five manifest kinds) returns the generator's edge list: a parameter `g_succ` of the theorems; checked on every run by trace acceptance (only dispatched successors may be probed) and by dag.SelfTest on every generated graph (oracle signature successors-differ)",
